@@ -333,7 +333,17 @@ class C20(Base):
         r = Rng(seed * 1000 + 20)
         k = self.n(tier, 1, 10)
         lines = scen.id_grid(r.fork(1), 400 * k)
-        return [Stream("S1-identifiers", lines, fields={"pure": ["_"]}, oracle=c20_oracle)]
+        # the identifier the attributes produce for a domain (the one transfers are matched and recorded under)
+        doms = [0, 1, 5, 9, 10, 2 ** 31 - 1, 2 ** 31, 3 * 10 ** 9, 2 ** 32 - 1] + [r.range(0, 2 ** 32) for _ in range(40 * k)]
+        for d in doms:
+            lines.append("pure attr cctp %d %s %s" % (d, hx(b"\x00" * 12 + b"\x07" * 20), "-"))
+            lines.append("pure attr hyp %s %d %s - -" % (hx(b"\x01" * 32), d, hx(b"\x09" * 32)))
+        lines2, toks = scen.base_setup()
+        lines2.append("deposit %s %s %d" % (hx(POOL), hx("uother"), 10 ** 30))
+        lines2 += pause_targeted(toks)
+        f2 = {"msg": ["res", "st"], "recv": ["ack"], "recvh": ["ack"], "query": ["res", "out", "next", "total"]}
+        return [Stream("S1-identifiers", lines, fields={"pure": ["_"]}, oracle=c20_oracle),
+                Stream("S3-identifier-in-use", lines2, fields=f2, oracle=pause_oracle)]
 
 
 def c20_oracle(steps):
@@ -353,6 +363,11 @@ def c20_oracle(steps):
             canonical = bool(re.fullmatch(r"0|[1-9][0-9]*", c)) and int(c) < 2 ** 32
             if (s.impl_raw == "ok") != canonical:
                 out.append((s.i, "non-canonical: counterparty %r for protocol %s is %s but canonical=%s" % (c, f[2], s.impl_raw, canonical)))
+        if f[1] == "attr" and f[2] in ("cctp", "hyp") and ":" in s.impl_raw:
+            d = int(f[3] if f[2] == "cctp" else f[4])
+            got = unhx(s.impl_raw.split(":", 1)[1]).decode("utf-8", "replace")
+            if got != str(d):
+                out.append((s.i, "spelling: %s attributes for domain %d produce counterparty %r, pause/query/statistics use %r" % (f[2], d, got, str(d))))
     # round trip ccid -> parseccid is checked through dedicated paired lines (the id text is fed back)
     return out
 
@@ -1090,9 +1105,11 @@ def c07_lines(r, n):
         lines.append(pkt_line("withoutmw", b))
     # structural mutations of well-formed ICS-20 data (extra keys, aliases, wrong types) for an ordinary receiver and for the
     # orbiter address: whatever the transfer application does not accept as ICS-20 data is not an orbiter packet either
-    for rc in (U[0], ORB):
-        doc = {"denom": "transfer/channel-7/uusdc", "amount": "5", "sender": b32(addr(200)), "receiver": rc, "memo": goodmemo if rc == ORB else ""}
-        for m in scen.mutations(doc, r, 80):
+    # a balance on the module account makes a wrongly started orbiter flow visible (it is swept before the transfer application runs)
+    lines.append("deposit %s %s %d" % (hx(ORB_BYTES), hx("uusdc"), 777))
+    for rc, mm in ((U[0], ""), (ORB, goodmemo), (ORB, ""), (ORB, "hello"), (ORB, "{\"orbiter\":{}}")):
+        doc = {"denom": "transfer/channel-7/uusdc", "amount": "5", "sender": b32(addr(200)), "receiver": rc, "memo": mm}
+        for m in scen.mutations(doc, r, 80 if mm in ("", goodmemo) else 20):
             lines.append(pkt_line("withoutmw", m))
         base = _json.dumps(doc, separators=(",", ":"))
         for m in [base.replace("\"receiver\"", "\"Receiver\""), base.replace("\"receiver\"", "\"RECEIVER\""), base.replace("\"memo\"", "\"Memo\""),
@@ -1118,13 +1135,20 @@ def c07_lines(r, n):
     for kind in ("ack", "timeout", "send", "writeack"):
         for fail in ("0", "1"):
             lines.append("cb %s %s %s %s" % (kind, hx(r.bytes(20)), hx(r.bytes(8)), fail))
-    return lines
+    # every comparison twice: on the chain's stack (blockibc above the middleware) and at component level (the middleware
+    # directly around ICS-20), since what is stacked above may hide what the middleware does with data it should not touch
+    out = []
+    for ln in lines:
+        out.append(ln)
+        if ln.startswith("withoutmw "):
+            out.append("withoutmwc " + ln[len("withoutmw "):])
+    return out
 
 
 def c07_oracle(steps):
     out = []
     for s in steps:
-        if s.op == "withoutmw":
+        if s.op in ("withoutmw", "withoutmwc"):
             orb = s.model.get("orb")
             if orb is None:
                 orb = "true" if receiver_is_orbiter(packet_of(s.line)) else "false"
@@ -1144,7 +1168,7 @@ class C07(Base):
 
     def streams(self, tier, seed):
         r = Rng(seed * 1000 + 7)
-        f = {"withoutmw": ["ackmw", "ackbare"], "recv": ["ack", "bal", "st"], "msg": ["res", "st"], "cb": ["same"]}
+        f = {"withoutmw": ["ackmw", "ackbare"], "withoutmwc": ["ackmw", "ackbare"], "recv": ["ack", "bal", "st"], "msg": ["res", "st"], "cb": ["same"]}
         return [Stream("S5-with-and-without-middleware", c07_lines(r, self.n(tier, 80, 800)), fields=f, oracle=c07_oracle)]
 
 
